@@ -255,81 +255,16 @@ func checkC05(c *Ctx) {
 		}
 	}
 
-	// ---------------- R05e
-	if fn := c.P.Func("internal/annotations", "GetOneofDiscriminatorInfo"); fn != nil {
-		decl := c.P.Decls[fn]
-		info := c.P.DeclPkg[fn].TypesInfo
-		// variant.DiscriminatorVal = customValue | string(field.Desc.Name()) under customValue != ""
-		explicit, def := "", ""
-		ast.Inspect(decl.Body, func(n ast.Node) bool {
-			ifs, ok := n.(*ast.IfStmt)
-			if !ok || ifs.Else == nil {
-				return true
-			}
-			be, ok := ast.Unparen(ifs.Cond).(*ast.BinaryExpr)
-			if !ok || be.Op.String() != "!=" {
-				return true
-			}
-			get := func(b *ast.BlockStmt) string {
-				for _, st := range b.List {
-					if as, ok := st.(*ast.AssignStmt); ok && len(as.Lhs) == 1 && strings.HasSuffix(types.ExprString(as.Lhs[0]), ".DiscriminatorVal") {
-						return types.ExprString(as.Rhs[0])
-					}
-				}
-				return ""
-			}
-			if eb, ok := ifs.Else.(*ast.BlockStmt); ok {
-				if v := get(ifs.Body); v != "" {
-					explicit, def = v, get(eb)
-					// the tested variable is the explicit one and is compared with ""
-					if types.ExprString(be.X) != explicit {
-						explicit = "?" + explicit
-					}
-				}
-			}
-			return true
-		})
-		_ = info
-		cv := ""
-		// customValue := GetOneofVariantValue(field)
-		ast.Inspect(decl.Body, func(n ast.Node) bool {
-			if as, ok := n.(*ast.AssignStmt); ok && len(as.Lhs) == 1 && types.ExprString(as.Lhs[0]) == explicit && len(as.Rhs) == 1 {
-				cv = types.ExprString(as.Rhs[0])
-			}
-			return true
-		})
-		r.Check(strings.HasPrefix(cv, "GetOneofVariantValue(") && def == "string(field.Desc.Name())", "R05e", "discriminator value is oneof_value, else the proto field name", c.P.Pos(decl.Pos()),
-			fmt.Sprintf("GetOneofDiscriminatorInfo uses %s (from %s) when set and %s otherwise; annotations.proto documents the default as the proto field name", explicit, cv, def))
-	} else {
-		r.Unres("R05e", "GetOneofDiscriminatorInfo", "", "not found")
-	}
-	// enum: custom value else proto name in the emitted lookup table
-	if fn := c.P.Func(pkgHTTP, "Generator.generateEnumLookupMaps"); fn != nil {
-		decl := c.P.Decls[fn]
-		n, okN := 0, 0
-		ast.Inspect(decl.Body, func(nd ast.Node) bool {
-			ifs, ok := nd.(*ast.IfStmt)
-			if !ok || types.ExprString(ifs.Cond) != `jsonValue == ""` {
-				return true
-			}
-			n++
-			for _, st := range ifs.Body.List {
-				if as, ok := st.(*ast.AssignStmt); ok && types.ExprString(as.Rhs[0]) == "string(value.Desc.Name())" {
-					okN++
-				}
-			}
-			return true
-		})
-		r.Check(n >= 2 && n == okN, "R05e", "enum JSON value is enum_value, else the proto value name (both tables)", c.P.Pos(decl.Pos()),
-			fmt.Sprintf("generateEnumLookupMaps: %d default arms, %d of them use the proto value name", n, okN))
-	}
+	// ---------------- R05e (decided by interpreting the code on concrete values, not by its shape)
+	c05DiscriminatorValues(c, "R05e")
+	enumTables(c, "R05e")
 
 	c05Consumers(c)
 	r.Rule("R05i", "scenario messages: the keys the emitted encoder writes are the keys of the documented mapping", 4)
 	crossScenarioKeys(c, "R05i", "go")
 	r.Rule("R05h", "codec collectors visit nested declarations unconditionally", 14)
 	collectorRecursion(c, "R05h")
-	r.Rule("R05j", "codec emitters are called on every successful path of generateFile (not behind the no-services return)", 16)
+	r.Rule("R05j", "codec emitters are called on every successful path of generateFile (not behind the no-services return)", 2)
 	codecEmittersUnconditional(c, "R05j")
 	r.Rule("R05k", "bytes decoded by a child's own UnmarshalJSON are not re-decoded by the final protojson decode", 2)
 	customFormReachesProtojson(c, "R05k")
@@ -534,17 +469,43 @@ func codecEmittersUnconditional(c *Ctx, rid string) {
 			}
 		}
 		n := 0
+		parentsGF := parentMap(decl.Body)
 		ast.Inspect(decl.Body, func(nd ast.Node) bool {
 			call, ok := nd.(*ast.CallExpr)
 			if !ok {
 				return true
 			}
-			suf, ok := codec[Callee(info, call)]
-			if !ok {
+			var sufs []string
+			loopCall := false
+			if cal := Callee(info, call); cal != nil {
+				if suf, ok := codec[cal]; ok {
+					sufs = append(sufs, suf)
+				}
+			} else {
+				for _, ic := range IndirectCallees(info, decl.Body, call) {
+					if suf, ok := codec[ic]; ok {
+						sufs = append(sufs, suf)
+						loopCall = true
+					}
+				}
+			}
+			if len(sufs) == 0 {
 				return true
 			}
-			n++
-			ok2, esc := mustPass(info, decl.Body, []token.Pos{call.Pos()})
+			n += len(sufs)
+			site := call.Pos()
+			if loopCall {
+				// a loop over a table of emitters: every element is called unless the loop is left on an error;
+				// what must lie on every successful path is the loop itself
+				for p := parentsGF[ast.Node(call)]; p != nil; p = parentsGF[p] {
+					if rs, ok := p.(*ast.RangeStmt); ok {
+						site = rs.X.Pos()
+						break
+					}
+				}
+			}
+			suf := strings.Join(sufs, ", *")
+			ok2, esc := mustPass(info, decl.Body, []token.Pos{site})
 			pos := c.P.Pos(call.Pos())
 			why := ""
 			if !ok2 {
@@ -563,9 +524,11 @@ func codecEmittersUnconditional(c *Ctx, rid string) {
 // map M and hands it to protojson.Unmarshal(…, x), bytes V that were handed to a
 // child's own UnmarshalJSON (so V may be in the child's annotated form, which
 // protojson does not understand) must not be part of M when it is re-decoded:
-//   (a) no `M[k] = V`;
-//   (b) when V was read from M[k], the key is deleted or overwritten (with bytes
-//       that did not go to a custom decoder, i.e. protojson.Marshal output).
+//
+//	(a) no `M[k] = V`;
+//	(b) when V was read from M[k], the key is deleted or overwritten (with bytes
+//	    that did not go to a custom decoder, i.e. protojson.Marshal output).
+//
 // Otherwise the final protojson decode re-reads the annotated form with the plain
 // mapping (and resets what the child's decoder produced).
 func customFormReachesProtojson(c *Ctx, rid string) {
@@ -708,4 +671,131 @@ func customFormReachesProtojson(c *Ctx, rid string) {
 		r.Bad(rid, k, sites[k].pos, sites[k].msg, nil)
 	}
 	r.Count("decoders checked for custom-form bytes reaching protojson", len(okSites)+len(sites))
+}
+
+// c05DiscriminatorValues: annotations.GetOneofDiscriminatorInfo is interpreted on a concrete oneof whose
+// members do / do not carry (sebuf.http.oneof_value): the variant's discriminator value must be the
+// explicit value, else the proto field name.
+func c05DiscriminatorValues(c *Ctx, rid string) {
+	r := c.R
+	fn := c.P.Func("internal/annotations", "GetOneofDiscriminatorInfo")
+	if fn == nil {
+		r.Unres(rid, "GetOneofDiscriminatorInfo", "", "not found")
+		return
+	}
+	pos := c.P.Pos(c.P.Decls[fn].Pos())
+	c.W.Concrete, c.W.ExternStructs = true, true
+	defer func() { c.W.Concrete, c.W.ExternStructs = false, false }()
+	a := fld("text_part", "message").msg(cMessage("TextContent", fld("body", "string")))
+	b := fld("image_ref", "message").msg(cMessage("ImageContent", fld("url", "string"))).ann("GetOneofVariantValue", constStr("img"))
+	s := fld("note", "string")
+	m := cMessage("Event", fld("id", "string"), a, b, s)
+	o := cOneof(m, "content", a, b, s)
+	o.Fields["@GetOneofConfig"] = oneofConfig("kind", false)
+	run := c.W.NewRun(map[string]int{}, false)
+	run.InlineAll, run.FollowSlices = true, true
+	run.CallHook = c.xHookT
+	run.StartArgs(fn, map[string]Val{"oneof": o})
+	if len(run.Used) > 0 || run.Aborted != "" {
+		r.Undec(rid, "discriminator values of a concrete oneof", pos, fmt.Sprintf("open decisions %v aborted %q", usedKeys(run), run.Aborted))
+		return
+	}
+	got := []string{}
+	if st, ok := run.Result.(*VStruct); ok {
+		if vl, ok := st.Fields["Variants"].(VList); ok {
+			for _, v := range vl.Elems {
+				if vs, ok := v.(*VStruct); ok {
+					got = append(got, valText(vs.Fields["DiscriminatorVal"]))
+				}
+			}
+		}
+	}
+	want := []string{"text_part", "img", "note"}
+	r.Check(strings.Join(got, ",") == strings.Join(want, ","), rid, "discriminator value is oneof_value, else the proto field name", pos,
+		fmt.Sprintf("GetOneofDiscriminatorInfo on oneof {text_part (no oneof_value), image_ref (oneof_value \"img\"), note (scalar, no oneof_value)} yields the discriminator values %v; annotations.proto documents %v (explicit value, else the proto field name)", got, want))
+}
+
+// enumTables: the *_enum_encoding.pb.go unit of both Go plugins is reconstructed for an enum of which
+// only some values carry (sebuf.http.enum_value), nested in a message beside a same-named enum of another
+// message. The encoder table maps every value to its custom string or its proto name; the decoder table
+// reads every string the encoder can write (and the proto name of a value that has a custom string).
+func enumTables(c *Ctx, rid string) {
+	r := c.R
+	for _, pkg := range []string{pkgHTTP, pkgClient} {
+		prio := cEnum("Task_Priority", "pkg.Task.Priority", cEnumValue{"PRIORITY_LOW", "low"}, cEnumValue{"PRIORITY_MEDIUM", ""}, cEnumValue{"PRIORITY_HIGH", "high"})
+		kind2 := cEnum("Shipment_Priority", "pkg.Shipment.Priority", cEnumValue{"EXPRESS", "x"}, cEnumValue{"STANDARD", ""})
+		top := cEnum("Color", "pkg.Color", cEnumValue{"COLOR_RED", "red"}, cEnumValue{"COLOR_BLUE", ""})
+		plain := cEnum("Plain", "pkg.Plain", cEnumValue{"PLAIN_A", ""}, cEnumValue{"PLAIN_B", ""})
+		task := nest(cMessage("Task", fld("id", "string")), nil, []*VStruct{prio})
+		ship := nest(cMessage("Shipment", fld("id", "string")), []*VStruct{nest(cMessage("Shipment_Leg", fld("n", "int32")), nil, []*VStruct{kind2})}, nil)
+		file := cFile([]*VStruct{task, ship}, []*VStruct{top, plain}, nil)
+		units, pos, prob := c.runUnitConcrete(pkg, "_enum_encoding.pb.go", file)
+		name := pkgShort(pkg) + " *_enum_encoding.pb.go"
+		if prob != "" {
+			r.Undec(rid, name+": tables of partially annotated enums", pos, prob)
+			continue
+		}
+		toJSON, fromJSON := map[string]map[string]string{}, map[string]map[string]string{}
+		cur, dir := "", ""
+		reTo := regexp.MustCompile(`^var (\w+)ToJSON = map\[(\w+)\]string\{`)
+		reFrom := regexp.MustCompile(`^var (\w+)FromJSON = map\[string\](\w+)\{`)
+		reToE := regexp.MustCompile(`^(\w+): "([^"]*)",$`)
+		reFromE := regexp.MustCompile(`^"([^"]*)": (\w+),$`)
+		for _, l := range unitLines(units) {
+			t := strings.TrimSpace(l)
+			if m := reTo.FindStringSubmatch(t); m != nil {
+				cur, dir = m[2], "to"
+				toJSON[cur] = map[string]string{}
+				continue
+			}
+			if m := reFrom.FindStringSubmatch(t); m != nil {
+				cur, dir = m[2], "from"
+				fromJSON[cur] = map[string]string{}
+				continue
+			}
+			if t == "}" {
+				dir = ""
+			}
+			if m := reToE.FindStringSubmatch(t); m != nil && dir == "to" {
+				toJSON[cur][m[1]] = m[2]
+			}
+			if m := reFromE.FindStringSubmatch(t); m != nil && dir == "from" {
+				fromJSON[cur][m[1]] = m[2]
+			}
+		}
+		type want struct {
+			enum string
+			to   map[string]string
+			also []string // proto names that must be readable too
+		}
+		wants := []want{
+			{"Task_Priority", map[string]string{"Task_Priority_PRIORITY_LOW": "low", "Task_Priority_PRIORITY_MEDIUM": "PRIORITY_MEDIUM", "Task_Priority_PRIORITY_HIGH": "high"}, []string{"PRIORITY_LOW", "PRIORITY_HIGH"}},
+			{"Shipment_Priority", map[string]string{"Shipment_Priority_EXPRESS": "x", "Shipment_Priority_STANDARD": "STANDARD"}, []string{"EXPRESS"}},
+			{"Color", map[string]string{"Color_COLOR_RED": "red", "Color_COLOR_BLUE": "COLOR_BLUE"}, []string{"COLOR_RED"}},
+		}
+		for _, w := range wants {
+			var bad []string
+			if toJSON[w.enum] == nil || fromJSON[w.enum] == nil {
+				bad = append(bad, "no lookup tables are emitted for this enum (tables emitted for: "+strings.Join(sortedKeys(toJSON), ", ")+")")
+			} else {
+				for _, v := range sortedKeys(w.to) {
+					if toJSON[w.enum][v] != w.to[v] {
+						bad = append(bad, fmt.Sprintf("encoder table writes %s as %q (documented: %q)", v, toJSON[w.enum][v], w.to[v]))
+					}
+					if fromJSON[w.enum][w.to[v]] != v {
+						bad = append(bad, fmt.Sprintf("decoder table reads %q as %q: the string the encoder writes for %s is not read back", w.to[v], fromJSON[w.enum][w.to[v]], v))
+					}
+				}
+				for _, pn := range w.also {
+					if fromJSON[w.enum][pn] == "" {
+						bad = append(bad, fmt.Sprintf("decoder table does not accept the proto name %q", pn))
+					}
+				}
+			}
+			r.Check(len(bad) == 0, rid, name+": enum "+w.enum+" (some values with enum_value): encoder/decoder tables", pos,
+				fmt.Sprintf("%s for enum %s: %s", name, w.enum, strings.Join(bad, "; ")))
+		}
+		_, hasPlain := toJSON["Plain"]
+		r.Check(!hasPlain, rid, name+": an enum without enum_value gets no tables", pos, "tables are emitted for an enum none of whose values carries enum_value: its JSON form would change from the proto3 mapping's")
+	}
 }
